@@ -145,7 +145,7 @@ type vfWCall struct {
 	cancelled bool // the call's context was cancelled (before the handler started or while it ran)
 }
 
-// TestVerifC08Wrap drives resilience's circuitBreakerWrapper: calls are started (blocking inside the
+// TestVerifC08Wrap drives the wrapper that resilience's CircuitBreaker policy creates: calls are started (blocking inside the
 // handler until released), completed with success / error / panic — possibly after the breaker changed
 // state —, and the clock is advanced; the permit decision (handler entered vs ErrShortCircuited), the
 // error / panic passed through and the breaker state are compared with the reference automaton
@@ -165,9 +165,17 @@ func TestVerifC08Wrap(t *testing.T) {
 			rt.Fatalf("VF-INCONCLUSIVE generator produced a policy that validation rejects: %v (%v)", err, raw)
 		}
 		w := pol.CreateWrapper()
-		cbw, ok := w.(circuitBreakerWrapper)
-		if !ok {
-			rt.Fatalf("VF-INCONCLUSIVE wrapper has unexpected type %T", w)
+		// the breaker's state is read through the exported State() of the embedded breaker, whatever
+		// the wrapper's type is called; without it only the admission decisions are compared
+		stater, _ := w.(interface{ State() libcb.State })
+		if stater == nil {
+			vf.Class("probe-unavailable:breaker-state (wrap: permit bits only)")
+		}
+		readState := func() string {
+			if stater == nil {
+				return ""
+			}
+			return vfStateName(stater.State())
 		}
 		tr := c08model.NewTracker(p, start)
 		failPct := rapid.SampledFrom([]int{10, 40, 70, 90}).Draw(rt, "failPct")
@@ -252,7 +260,7 @@ func TestVerifC08Wrap(t *testing.T) {
 					return nil, false
 				}
 			}
-			got := vfStateName(cbw.State())
+			got := readState()
 			if !permit {
 				cancel()
 			}
@@ -272,7 +280,7 @@ func TestVerifC08Wrap(t *testing.T) {
 			c.release <- o
 			res := <-c.done
 			c.cancel()
-			got := vfStateName(cbw.State())
+			got := readState()
 			log("finish #%d %s (context cancelled=%v) -> err=%v panicked=%v state=%s", c.id, o.name, c.cancelled, res.err, res.panicked, got)
 			wantErr := o.err
 			if o.ctxErr {
